@@ -11,6 +11,7 @@ import M3d.Lemmas.CodecPlyHeader
 import M3d.Lemmas.CodecFace
 import M3d.Lemmas.CodecIndex
 import M3d.Lemmas.CodecDecLit
+import M3d.Lemmas.CodecStream
 import M3d.Model.CodecMesh
 /-!
 # C15 — mesh files round-trip through the library's writers and readers
@@ -73,6 +74,155 @@ theorem stl_mesh_roundtrip (round32 : UInt64 → UInt32) (widen : UInt32 → UIn
   simp [Function.comp, List.drop_left' this]
 
 example : stlDecode noParse32 (stlEncode []) = .ok [] := stl_bin_roundtrip noParse32 [] (by simp) (by decide)
+
+/-! ## STL from a reader that delivers the file in pieces
+
+`stlDecode` is a function of the bytes of the file.  The real `NewSTLReader` gets them from an
+`io.Reader`, whose `Read` may return fewer bytes than asked for although more follow (pipe, socket,
+chunked body, `io.MultiReader(header, body)`, `iotest.OneByteReader`; `model3d.ReadSTL` puts a
+`bufio.Reader` in front, which passes short reads on).  `Stream.stlDecodeSrc` is the reader over such a
+source (`M3d/Model/CodecStream.lean`): `io.ReadFull` for the 512-byte sniffing chunk, the 80-byte
+header, the count and every 50-byte record; `io.MultiReader(bytes.NewReader(chunk), r)`;
+`bufio.Reader.ReadString` (4096-byte buffer, `fill`, `ReadSlice`, `collectFragments`) for the lines. -/
+
+open M3d.Codec.Stream in
+/-- **The STL reader does not depend on how the bytes are delivered.**  For every source `s` — any
+list of deliveries, none of them empty (`Read` never returns `0, nil`), `io.EOF` reported together with
+the last delivery or after it — `NewSTLReader(s)` followed by `ReadTriangle` until `io.EOF` returns
+exactly what the byte-level reader returns on the concatenation of the deliveries: same records or
+the same error, binary and ASCII files alike, whatever number parser. -/
+theorem stl_reader_delivery_independent (pf32 : Bytes → Option UInt32) (s : Src) (hne : s.NoEmpty) :
+    stlDecodeSrc pf32 s = stlDecode pf32 s.bytes :=
+  stlDecodeSrc_eq pf32 s hne
+
+open M3d.Codec.Stream in
+/-- **Binary STL round trip over any delivery** (kind `stlc b`): the file `NewSTLWriter`/`WriteTriangle`
+write for `ts`, delivered in any pieces, is read back as exactly `ts` — same order, orientation and
+bit patterns.  In particular a first `Read` shorter than the 512-byte sniffing chunk (seeded C15-7)
+must not make the reader take that fragment for the whole file. -/
+theorem stl_bin_roundtrip_any_delivery (pf32 : Bytes → Option UInt32) (ts : List Rec)
+    (hts : ∀ t ∈ ts, t.length = 12) (h : ts.length < 2 ^ 32)
+    (s : Src) (hne : s.NoEmpty) (hs : s.bytes = stlEncode ts) :
+    stlDecodeSrc pf32 s = .ok ts := by
+  rw [stlDecodeSrc_eq pf32 s hne, hs]
+  exact stlDecode_encode pf32 ts hts h
+
+open M3d.Codec.Stream in
+/-- **Binary STL, mesh API, any delivery**: `ReadSTL(r)` for a reader `r` delivering `EncodeSTL(ts)` in
+any pieces returns the triangles of `ts` in order with every coordinate `float64(float32(x))`. -/
+theorem stl_mesh_roundtrip_any_delivery (round32 : UInt64 → UInt32) (widen : UInt32 → UInt64)
+    (normalOf : Tri64 → List UInt64) (pf32 : Bytes → Option UInt32) (ts : List Tri64)
+    (hn : ∀ t ∈ ts, (normalOf t).length = 3) (h : ts.length < 2 ^ 32) (h9 : ∀ t ∈ ts, t.length = 9)
+    (s : Src) (hne : s.NoEmpty) (hs : s.bytes = stlEncodeMesh round32 normalOf ts) :
+    stlDecodeMeshSrc widen pf32 s = .ok (ts.map fun t => t.map fun x => widen (round32 x)) := by
+  have := stl_mesh_roundtrip round32 widen normalOf pf32 ts hn h h9
+  unfold stlDecodeMesh at this
+  unfold stlDecodeMeshSrc
+  rw [stlDecodeSrc_eq pf32 s hne, hs]
+  exact this
+
+open M3d.Codec.Stream in
+/-- **ASCII STL to the specification over any delivery** (kind `stlc a`): `stl_ascii_spec` for a reader
+that delivers the text in any pieces (lines cut anywhere, also in the middle of a number or of the
+`solid` keyword). -/
+theorem stl_ascii_spec_any_delivery (fmt32 : Nat → Bytes) (pf32 : Bytes → Option UInt32) (g : UInt32 → UInt32)
+    (ts : List Rec) (h12 : ∀ t ∈ ts, t.length = 12) (hw : ∀ t ∈ ts, ∀ w ∈ t, WordOK fmt32 pf32 g w)
+    (s : Src) (hne : s.NoEmpty) (hs : s.bytes = stlAsciiSpec fmt32 ts) :
+    stlDecodeSrc pf32 s = .ok (ts.map (·.map g)) := by
+  rw [stlDecodeSrc_eq pf32 s hne, hs]
+  exact stlDecode_asciiSpec fmt32 pf32 g ts h12 hw
+
+open M3d.Codec.Stream in
+/-- **Every way of cutting a file into deliveries is covered** (what the driver does for kind `stlc`):
+`splitSizes ks bs` cuts `bs` into non-empty pieces of the sizes `ks` (rest in one last piece), and the
+reader over them — with either `io.EOF` convention — is the byte-level reader on `bs`. -/
+theorem stl_reader_split_any_sizes (pf32 : Bytes → Option UInt32) (ks : List Nat) (eager : Bool) (bs : Bytes) :
+    stlDecodeSrc pf32 ⟨splitSizes ks bs, eager⟩ = stlDecode pf32 bs := by
+  rw [stlDecodeSrc_eq pf32 ⟨splitSizes ks bs, eager⟩ (splitSizes_noEmpty ks bs)]
+  show stlDecode pf32 (splitSizes ks bs).flatten = _
+  rw [splitSizes_flatten]
+
+open M3d.Codec.Stream in
+/-- Non-vacuity, and the failing input of the seeded reader (C15-7: the sniffing chunk filled by ONE
+`Read`, a short delivery taken for the whole file): the binary file of one triangle (134 bytes)
+delivered as 50 bytes + the rest, and byte by byte.  The reader as it is returns the triangle; the
+one-`Read` variant fails (`unexpected EOF` in the header) on both deliveries, and still reads the file
+when it arrives in one piece. -/
+example :
+    let t : Rec := [1, 2, 3, 4, 5, 6, 7, 8, 9, 10, 11, 0x7fc00001]
+    let bs := stlEncode [t]
+    let s1 : Src := ⟨splitSizes [50] bs, false⟩
+    let s2 : Src := ⟨splitSizes (List.replicate 200 1) bs, true⟩
+    s1.NoEmpty ∧ s1.bytes = bs ∧ s2.chunks.length = 134 ∧
+    stlDecodeSrc noParse32 s1 = .ok [t] ∧ stlDecodeSrc noParse32 s2 = .ok [t] ∧
+    stlDecodeFuelOneRead 300 noParse32 s1 = .error .unexpectedEOF ∧
+    stlDecodeFuelOneRead 300 noParse32 s2 = .error .unexpectedEOF ∧
+    stlDecodeFuelOneRead 300 noParse32 ⟨[bs], false⟩ = .ok [t] := by
+  refine ⟨splitSizes_noEmpty _ _, splitSizes_flatten _ _, by decide +kernel, by decide +kernel,
+    by decide +kernel, by decide +kernel, by decide +kernel, by decide +kernel⟩
+
+open M3d.Codec.Stream in
+/-- The same for an ASCII file: one facet of specification text (> 100 bytes) delivered in pieces of 7
+bytes — the keyword `solid` itself is cut — is read as the facet; the one-`Read` variant sniffs
+the 7-byte fragment, and reads nothing from it. -/
+example :
+    let tok := ascii "1.5"
+    let bs := stlAsciiSpec (fun _ => tok) [List.replicate 12 0]
+    let s : Src := ⟨splitSizes (List.replicate 40 7) bs, false⟩
+    stlDecodeSrc parseF32 s = .ok [List.replicate 12 0x3fc00000] ∧
+    stlDecodeFuelOneRead 400 parseF32 s ≠ .ok [List.replicate 12 0x3fc00000] := by
+  refine ⟨by decide +kernel, by decide +kernel⟩
+
+/-! ## The primitives through which the PLY and OFF readers consume their input -/
+
+open M3d.Codec.Stream in
+/-- **`PLYReader` / `OFFReader`: the input primitives are delivery independent** (`_partial`).
+`NewPLYReader` wraps its source in `bufio.NewReader` and touches it in three ways only:
+`Read(next[:1])` byte by byte until `end_header\n`, `ReadString('\n')` for every ASCII row, and
+`io.ReadFull` for every binary scalar (`DecodeInstanceBinary`); `OFFReader` uses `ReadString` only.
+For every state `b` of the `bufio.Reader` that can arise over a source that never returns `0, nil`
+(`b.Inv`; whatever is buffered, however the rest will be delivered, either `io.EOF` convention) each of
+the three is a function of the bytes not yet consumed, `b.bytes`:
+
+* the one-byte `Read` returns the next byte (nothing iff nothing is left) and leaves `drop 1`;
+* `io.ReadFull(·, k)` returns `take k` (shorter only when the stream ends) and leaves `drop k`;
+* `ReadString('\n')` returns the next line of `readLine` — including the newline, or everything that
+  is left together with `io.EOF` — and leaves the rest;
+
+and the state afterwards again satisfies `Inv`.  These right-hand sides are what the byte-level models
+`plyOpen`/`plyReadAll`/`offDecode` are written with.  `_partial`: the composition — a reader-level twin of
+those models over `BufRd` and its equality with them, as proved for STL
+(`stl_reader_delivery_independent`) — is not mechanised; the harness hands PLY and OFF files to the real
+readers in pieces and the correspondence compares with the byte-level model. -/
+theorem ply_off_reader_primitives_delivery_independent_partial (F : Nat) (b : BufRd) (hi : b.Inv)
+    (hF : b.rd.bytes.length + b.rd.parts + 1 < F) (k : Nat) :
+    -- br.Read(next[:1])
+    ((b.read 1).1 = b.bytes.take 1 ∧ (b.read 1).2.2.bytes = b.bytes.drop 1 ∧ (b.read 1).2.2.Inv ∧
+      ((b.read 1).1 = [] ↔ b.bytes = [])) ∧
+    -- io.ReadFull(br, data[:k])
+    ((readFullBuf F b k).1 = b.bytes.take k ∧ (readFullBuf F b k).2.bytes = b.bytes.drop k ∧
+      (readFullBuf F b k).2.Inv) ∧
+    -- br.ReadString('\n')
+    ((readString F (b.bytes.length + 1) b []).1 = (readLine b.bytes).1 ∧
+      (readString F (b.bytes.length + 1) b []).2.1 =
+        (if (readLine b.bytes).2.2 then SliceEnd.found else SliceEnd.failed BErr.eof) ∧
+      (readString F (b.bytes.length + 1) b []).2.2.bytes = (readLine b.bytes).2.1 ∧
+      (readString F (b.bytes.length + 1) b []).2.2.Inv) := by
+  refine ⟨BufRd.read_one b hi, ?_, ?_⟩
+  · obtain ⟨h1, h2, h3, _⟩ := readFullBuf_spec F b k hi (by omega)
+    exact ⟨h1, h2, h3⟩
+  · obtain ⟨h1, h2, h3, h4, _⟩ := readString_spec F (b.bytes.length + 1) b [] hi (by omega) (by omega)
+    exact ⟨by simpa using h1, h2, h3, h4⟩
+
+open M3d.Codec.Stream in
+/-- Non-vacuity: a fresh `bufio.Reader` over any source without empty deliveries satisfies `Inv`; and by
+evaluation on `"ab\ncd"` delivered as `a | b\nc | d`: the byte `a`, `ReadFull 4` = `ab\nc`, the line `ab\n`. -/
+example :
+    (∀ s : Src, s.NoEmpty → (BufRd.mk [] .none ⟨[], s⟩).Inv) ∧
+    (let b : BufRd := ⟨[], .none, ⟨[], ⟨[[97], [98, 10, 99], [100]], true⟩⟩⟩
+     (b.read 1).1 = [97] ∧ (readFullBuf 10 b 4).1 = [97, 98, 10, 99] ∧
+     (readString 10 10 b []).1 = [97, 98, 10]) :=
+  ⟨fun _ h => ⟨(fun e => by cases e), (by simp), h⟩, by decide +kernel⟩
 
 /-! ## PLY values, rows, streams -/
 
